@@ -78,6 +78,10 @@ func VerifC15_DecHeader() {
 		vrt.Assert(len(rest)+16+12*len(h.archiveInfoList) == n, "C15.dec Header consumes exactly its encoding")
 		vrt.Assert(int(h.archiveCount) == len(h.archiveInfoList), "C15.dec Header count matches list")
 		vrt.Assert(h.aggregationMethod >= 1 && h.aggregationMethod <= 6, "C15.dec an accepted header has a storable aggregation method (a well-formed object)")
+		for _, a := range h.archiveInfoList {
+			vrt.Assert(a.secondsPerPoint > 0, "C15.dec every archive of an accepted header has a positive step (a well-formed object)")
+			vrt.Assert(a.numberOfPoints > 0, "C15.dec every archive of an accepted header has a positive point count (a well-formed object)")
+		}
 	} else {
 		var werr *WantLargerBufferError
 		if vrtAsWant(err, &werr) {
@@ -102,6 +106,11 @@ func VerifC15_Open() {
 		vrt.Assert(int(w.Header().archiveCount) == len(w.Header().archiveInfoList), "C15.open header consistent")
 		am := w.Header().aggregationMethod
 		vrt.Assert(am >= 1 && am <= 6, "C15.open an accepted file has a storable aggregation method (a well-formed object)")
+		for _, a := range w.Header().archiveInfoList {
+			// a zero step or count makes every later fetch/update divide by zero
+			vrt.Assert(a.secondsPerPoint > 0, "C15.open every archive of an accepted file has a positive step (a well-formed object)")
+			vrt.Assert(a.numberOfPoints > 0, "C15.open every archive of an accepted file has a positive point count (a well-formed object)")
+		}
 		_ = w.Close()
 	}
 	vrt.Assert(vrt.AllocBytes() <= int64(4096+2*n+4096), "C15.open allocation proportional to the file")
